@@ -1,8 +1,11 @@
 (* C22: queries agree with the member set.
    Proved: cardinality is the number of members (C22_cardinality); the executable member list used by the
-   correspondence check is gamma (C22_members).  Joins, meet, widening, eval/min/max/solution are not
-   modelled; they are covered by the sweep of the real code only. *)
-Require Import CV.Model.PyPrelude CV.Model.SI CV.Proofs.SISound.
+   correspondence check is gamma (C22_members); the union of two intervals (union / least_upper_bound / _union, i.e.
+   pseudo_join with its ten cases: containment either way, TOP operands, covering the circle, overlapping, disjoint with the
+   choice of the join with fewer values) contains every member of both operands, for every width and all operands
+   (C22_union).  least_upper_bound of three or more intervals, meet, widening, eval/min/max/solution are not modelled;
+   they are covered by the sweep of the real code only. *)
+Require Import CV.Model.PyPrelude CV.Model.SI CV.Model.SIUnion CV.Proofs.SISound CV.Proofs.SIUnionSound.
 From Coq Require Import ZArith List.
 Open Scope Z_scope.
 
@@ -15,3 +18,8 @@ Print Assumptions C22_cardinality.
 Theorem C22_members : forall a x, 0 <= bits a -> 0 <= stride a -> (In x (members a) <-> gamma a x).
 Proof. exact members_gamma. Qed.
 Print Assumptions C22_members.
+
+Theorem C22_union : forall a b, wf a -> wf b -> bits a = bits b ->
+  exists r, si_union a b = Ok r /\ wf r /\ bits r = bits a /\ forall x, gamma a x \/ gamma b x -> gamma r x.
+Proof. exact union_sound. Qed.
+Print Assumptions C22_union.
